@@ -4,7 +4,7 @@ CONSTANTS Stride = 61
           Core = "sign"
           Offset = 0
           PerPair = 1
-          NCand = 16
+          NCand = 24
           Parts = {"flat", "nest"}
 INVARIANT PrinterSound
 CHECK_DEADLOCK FALSE
